@@ -14,7 +14,7 @@ def run(run):
     if not L.build(run):
         return
     quick = run.tier == "quick"
-    fams = [("c10", 400 if quick else 6000, run.seed), ("boot", 60 if quick else 600, run.seed + 1),
+    fams = [("corpus:corpus/C10/growth-reload-failure.jsonl", 0, 0), ("c10", 400 if quick else 6000, run.seed), ("boot", 60 if quick else 600, run.seed + 1),
             ("c11", 80 if quick else 800, run.seed + 2)]
     results, cover, summary, scripts, traces = L.run_families(run, fams)
     cnt = L.classify(run, "C10", results, scripts, traces)
